@@ -135,7 +135,14 @@ pub trait NamingContext {
     fn compute_function_name(&self, name: &str, _rename_all: &Option<RenameRule>) -> String {
         // Always use TypeScript conventions (camelCase for functions)
         // Command-level rename_all doesn't affect the function name
-        self.apply_naming_convention(name, RenameRule::CamelCase)
+        let function_name = self.apply_naming_convention(name, RenameRule::CamelCase);
+        // A Rust function may be called `delete`, `new` or `class`; an exported TypeScript
+        // function may not. The invoked command name is unaffected
+        if is_reserved_typescript_word(&function_name) {
+            format!("{}_", function_name)
+        } else {
+            function_name
+        }
     }
 
     /// Compute the TypeScript type name (PascalCase)
@@ -147,6 +154,62 @@ pub trait NamingContext {
         // Command-level rename_all doesn't affect the type name
         self.apply_naming_convention(name, RenameRule::PascalCase)
     }
+}
+
+/// Words that cannot name a function declaration in an ES module (reserved words, strict-mode
+/// reserved words and the names strict mode forbids to bind)
+fn is_reserved_typescript_word(name: &str) -> bool {
+    matches!(
+        name,
+        "break"
+            | "case"
+            | "catch"
+            | "class"
+            | "const"
+            | "continue"
+            | "debugger"
+            | "default"
+            | "delete"
+            | "do"
+            | "else"
+            | "enum"
+            | "export"
+            | "extends"
+            | "false"
+            | "finally"
+            | "for"
+            | "function"
+            | "if"
+            | "import"
+            | "in"
+            | "instanceof"
+            | "new"
+            | "null"
+            | "return"
+            | "super"
+            | "switch"
+            | "this"
+            | "throw"
+            | "true"
+            | "try"
+            | "typeof"
+            | "var"
+            | "void"
+            | "while"
+            | "with"
+            | "yield"
+            | "let"
+            | "static"
+            | "implements"
+            | "interface"
+            | "package"
+            | "private"
+            | "protected"
+            | "public"
+            | "await"
+            | "arguments"
+            | "eval"
+    )
 }
 
 /// Lower-case the first character (not the first byte) of a name
